@@ -221,3 +221,28 @@ package check
 //@   assert@ret#12 [modshl] implies(op == t.IDXBinaryTildeModShiftL && result1 == nil && typeBounds[1] != nil && old(factsHold(q)) && inR(lb, wval(lhs)) && 0 <= wval(lhs), inR(result0, emod(wval(lhs) * pow2(wval(rhs)), bigval(typeBounds[1]) + 1)))
 //@   assert@ret#13 [modshl] implies(op == t.IDXBinaryTildeModShiftL && result1 == nil && typeBounds[1] != nil && old(factsHold(q)) && inR(lb, wval(lhs)) && 0 <= wval(lhs), inR(result0, emod(wval(lhs) * pow2(wval(rhs)), bigval(typeBounds[1]) + 1)))
 //@   modifies *q
+
+//@ func neg
+//@   prop C01
+//@   requires i != nil
+//@   ensures fresh(result) && bigval(result) == 0 - old(bigval(i))
+
+// Unary operators: +x has x's range, -x the mirrored range, "not" is a boolean.
+//@ func (*checker).bcheckExprUnaryOp
+//@   prop C01
+//@   requires q != nil && n != nil && rhsOf(n) != nil
+//@   ensures[plus] implies(opOf(n) == t.IDXUnaryPlus && result1 == nil && old(factsHold(q)), inR(result0, wval(rhsOf(n))))
+//@   ensures[minus] implies(opOf(n) == t.IDXUnaryMinus && result1 == nil && old(factsHold(q)), inR(result0, 0 - wval(rhsOf(n))))
+//@   ensures[not] implies(opOf(n) == t.IDXUnaryNot && result1 == nil, result0[0] == zero && result0[1] == one)
+//@   modifies *q
+
+// bcheckExprBinaryOp: the same containment as bcheckExprBinaryOp1, with the left
+// operand's range taken from (the assumed contract of) bcheckExpr.
+//@ func (*checker).bcheckExprBinaryOp
+//@   prop C01
+//@   requires q != nil && lhs != nil && rhs != nil && forall(k, 0, len(q.facts), q.facts[k] != nil)
+//@   requires[scope] op != t.IDXBinaryTildeModPlus && op != t.IDXBinaryTildeModMinus && op != t.IDXBinaryTildeModStar && op != t.IDXBinaryTildeSatPlus && op != t.IDXBinaryTildeSatMinus && op != t.IDXBinaryAmp && op != t.IDXBinaryPipe && op != t.IDXBinaryHat
+//@   ensures[star] implies(op == t.IDXBinaryStar && result1 == nil && old(factsHold(q)), inR(result0, wval(lhs) * wval(rhs)))
+//@   ensures[slash] implies(op == t.IDXBinarySlash && result1 == nil && old(factsHold(q)), wval(lhs) >= 0 && wval(rhs) > 0 && inR(result0, wval(lhs) / wval(rhs)))
+//@   ensures[shl] implies(op == t.IDXBinaryShiftL && result1 == nil && old(factsHold(q)), wval(rhs) >= 0 && inR(result0, wval(lhs) * pow2(wval(rhs))))
+//@   modifies *q
